@@ -130,6 +130,22 @@ func c16(c *Ctx) {
 		}
 	}
 	r.Floor("R16.2", n162, 12)
+	// positive control of the deferred-overwrite clause of the propagation rule (no instance on today's tree)
+	{
+		fires, keeps := false, true
+		for _, fn := range c.G.Funcs() {
+			if rel, ok := c.P.PkgOf(fn); !ok || rel != core.Rel(core.ControlPkg) {
+				continue
+			}
+			switch fn.Name() {
+			case "CtlC16DeferClobber":
+				fires = len(core.ClobberingDefers(fn, core.ErrResultIndex(fn.Signature))) > 0
+			case "CtlC16DeferKeeps":
+				keeps = len(core.ClobberingDefers(fn, core.ErrResultIndex(fn.Signature))) == 0
+			}
+		}
+		r.Control("R16.2/CtlC16DeferClobber", fires && keeps)
+	}
 
 	// ---- R16.1
 	n161 := 0
